@@ -17,7 +17,7 @@
 (* "for_bound_not_live" (range(n) operand not counted as a use by liveness).                     *)
 EXTENDS Integers, Sequences, FiniteSets, TLC, Json
 
-CONSTANTS Deviations, MaxNodes, MinNodes, MaxDepth, MaxBlock, Rich,
+CONSTANTS Deviations, MaxNodes, MinNodes, MaxDepth, MaxBlock, Rich, Tiny,
           Kinds          \* which control-flow statements a derivation may open: subset of {"if", "for", "while", "brk"}
 VARIABLES stack, nodes, stage, prog, ret, refused, res, info
 vars == <<stack, nodes, stage, prog, ret, refused, res, info>>
@@ -225,7 +225,8 @@ GExec(s, env, out, devs) ==
 (* program derivation *)
 AsgMenu == LET base == {EV("a"), EV("x"), EV("y"), EAddC("x", 1), EAddC("y", 1), EMul("x", "y"), EAdd("x", "a")}
                rich == {ECall("x"), EAttr("y"), EAddC("a", -1), EAddC("x", -1)} \cup {EAdd("y", stack[d].v) : d \in {d \in 1..Len(stack) : stack[d].k = "for"}}
-           IN [v : AVars, e : IF Rich THEN base \cup rich ELSE base]
+               tiny == {EV("a"), EAddC("x", 1), EMul("x", "y"), EV("y")}     \* small alphabet for deeper exhaustive structure
+           IN [v : AVars, e : IF Tiny THEN tiny ELSE IF Rich THEN base \cup rich ELSE base]
 Bounds == {EV("n"), EV("x"), EC(2)}
 CondVars == {"a", "x", "y"}
 WhileConds == {ELt("x", 2), EGt("y", 0)}
